@@ -908,3 +908,4 @@ func verifClientIterateWhileMutating[K any, V any](c *cursor[K, V], k1 K, k2 K, 
 //@   requires (forall a T {less(a, a)} :: !less(a, a)) && (forall a T, b T, c T {less(a, b), less(b, c)} :: less(a, b) && less(b, c) ==> less(a, c))
 //@   requires forall a T, b T, c T {less(a, b), less(b, c)} {less(b, a), less(c, b)} :: !less(a, b) && !less(b, a) && !less(b, c) && !less(c, b) ==> !less(a, c) && !less(c, a)
 //@   ensures fresh(result.t) && mOK(result.t) && result.t.size == 0 && (forall kk T {result.t.root.sub[kk]} :: !result.t.root.sub[kk])
+
